@@ -24,6 +24,7 @@ U18 = ("u18_values", {})
 U19 = ("u19_parse_trace", {})
 U20 = ("u20_roundtrip", {})
 U21 = ("u21_autotraits", {})
+U22 = ("u22_uuid", {})
 U12M = ("u12_text_trace", {"which": "mapper"})
 U12C = ("u12_text_trace", {"which": "cache"})
 U3 = ("u3_interpretation", {})
@@ -267,6 +268,21 @@ PROPS = {
         "not_decided": ["for every set of queries issued concurrently from many threads, each query returns exactly what it returns when issued alone (a statement about schedules; outside both installed tools)"],
         "design_ref": "DESIGN.md 5/C20",
     },
+    "C18": {
+        "title": "The mapping UUID is the stable content-derived identifier other tools compute",
+        "units": [U22],
+        "kani": [],
+        "technique": "Verus contract on the real text of ProguardMapping::uuid (extracted regardless of its cfg(feature) gate) over a stand-in for the optional `uuid` dependency whose new_v5 is an uninterpreted function of (namespace, name bytes)",
+        "level_text": "PARTIAL. Proved for every byte string: uuid() == v5(v5(NAMESPACE_DNS, the bytes of `guardsquare.com`), exactly self.source) -- the identifier is a function of the source bytes and nothing else "
+                      "(no validity check, no trimming, no line-ending normalisation, no lossy UTF-8 conversion) in the namespace the property names. NOT decided: that uuid::Uuid::new_v5 is the RFC 4122 version-5 (SHA-1) "
+                      "construction other tools compute (the dependency; it is an uninterpreted function here), and anything about processes or platforms beyond `the result is a spec function of the bytes`.",
+        "assumed": ["uuid::Uuid::new_v5(ns, name) is a function of its two arguments (stand-in struct with the items the function uses; NAMESPACE_DNS etc. with their RFC 4122 values)",
+                    "R14: lazy_static! { static ref N: T = E; } is replaced by `let N: T = E;` (the memoisation of a pure initialiser is dropped)",
+                    "the feature gate #[cfg(feature = \"uuid\")] is dropped from the extracted text (the pinned build does not enable the feature; the contract is about the function as written)",
+                    "byte-string literal contents by an axiom generated from the literal in the extracted text"],
+        "not_decided": ["agreement with the identifier computed by uploaders / SDK build plugins (needs the SHA-1 based construction inside the dependency)"],
+        "design_ref": "DESIGN.md 5/C18",
+    },
     "C19": {
         "title": "File-level metadata answers equal a fold over the complete record stream",
         "units": [U7, U5],
@@ -293,7 +309,7 @@ PROPS = {
     },
     "C13": {
         "title": "No mapping bytes and no query can make the library panic or overflow",
-        "units": [U2S, U5, U7, U10M, U3, U8, U9, U6M, U6W, U1S, U4, U10C, U11, U13, U14, U15, U17, U19],
+        "units": [U2S, U5, U7, U10M, U3, U8, U9, U6M, U6W, U1S, U4, U10C, U11, U13, U14, U15, U17, U19, U22],
         "kani": ["k3_java_base_types"],
         "technique": "Verus implicit obligations on the mapper reader with NO precondition on entry values",
         "level_text": "The mapper's reader functions are verified with arbitrary usize entry values and any frame: no overflow, no out-of-bounds, termination.",
@@ -305,7 +321,6 @@ PROPS = {
 
 NOT_APPLICABLE = {
     "C14": "quantifies over processes, hash seeds and threads (a two-run property); a per-call contract can only say that the output is the value of spec functions of its inputs: within one run the collected classes are the abstract fold over the record stream (u14), the tail emits canonical(classes in BTreeMap key order, string bytes) (u8) and the HashSet is used for membership only, but the string-table offsets enter through a ghost table sequence whose interning order is deliberately left open (so that harmless reorderings verify), and watto::StringTable (insert / into_bytes) has no contract that would make the string section a function of the records. The second clause of the statement (`its length equals the length implied by its own header`) IS proved, as obligation file_length_equals_header_implied_length under C09 / C11 (u8), and u20 shows the reader accepts every emitted file",
-    "C18": "two lines behind lazy_static! and the optional uuid dependency (SHA-1 inside the dependency); feature is off in the pinned build; a contract would restate the call",
 }
 
 # ---- texts revised after the late units (u13/u14 whole builders, u20 round trip, flag-independence lemma) ----
